@@ -255,3 +255,1166 @@ Proof.
   intros H1 H2. unfold delete_point.
   rewrite !b_get_del, k_data_eqb, k_data_node_eqb, k_data_uuid_eqb by assumption. reflexivity.
 Qed.
+
+(* ========================= WfP is preserved =============================== *)
+
+Lemma WfP_empty : WfP [].
+Proof.
+  constructor; cbn; try discriminate; try constructor; try contradiction.
+  all: try (intros n _ H; now contradiction H).
+  all: try reflexivity.
+Qed.
+
+(* SetPoint of (nid, u) when neither nid nor u is bound to something else *)
+Lemma WfP_set_point b nid u d :
+  WfP b -> nid < two64 ->
+  (forall v, b_get (k_uuid nid) b = Some v -> v = VUuid u) ->
+  (forall v, b_get (k_node u) b = Some v -> v = VNode nid) ->
+  WfP (set_point b nid u d).
+Proof.
+  intros W Hn C1 C2. constructor.
+  - unfold set_point. repeat apply b_put_NoDup. apply (wf_nodup _ W).
+  - intros u' v. rewrite set_point_node. destruct (bytes_eqb u' u) eqn:E.
+    + apply bytes_eqb_eq in E. subst u'. intros H. inversion H; subst v.
+      exists nid. repeat split; [assumption|]. rewrite set_point_uuid by assumption. now rewrite N.eqb_refl.
+    + intros H. destruct (wf_node _ W _ _ H) as (n & -> & Hn' & Hu).
+      exists n. repeat split; [assumption|]. rewrite set_point_uuid by assumption.
+      destruct (N.eqb_spec n nid) as [->|Hne]; [|assumption].
+      apply C1 in Hu. inversion Hu; subst. now rewrite bytes_eqb_refl in E.
+  - intros n v Hn'. rewrite set_point_uuid by assumption. destruct (N.eqb_spec n nid) as [->|Hne].
+    + intros H. inversion H; subst v. exists u. split; [reflexivity|].
+      rewrite set_point_node. now rewrite bytes_eqb_refl.
+    + intros H. destruct (wf_uuid _ W _ _ Hn' H) as (u' & -> & Hu).
+      exists u'. split; [reflexivity|]. rewrite set_point_node.
+      destruct (bytes_eqb u' u) eqn:E; [|assumption].
+      apply bytes_eqb_eq in E. subst u'. apply C2 in Hu. inversion Hu. contradiction.
+  - intros n Hn'. rewrite set_point_uuid, set_point_data by assumption.
+    destruct (N.eqb_spec n nid) as [->|Hne]; [intros _; now exists d|]. now apply (wf_data1 _ W).
+  - intros n Hn'. rewrite set_point_uuid, set_point_data by assumption.
+    destruct (N.eqb_spec n nid) as [->|Hne]; [discriminate|]. now apply (wf_data2 _ W).
+  - intros k v H. unfold set_point in H.
+    apply b_put_In in H. destruct H as [H|H]; [inversion H; right; exists nid; auto|].
+    apply b_put_In in H. destruct H as [H|H]; [inversion H; left; now exists u|].
+    apply b_put_In in H. destruct H as [H|H]; [inversion H; right; exists nid; auto|].
+    now apply (wf_keys _ W k v).
+Qed.
+
+Lemma WfP_delete_point b u nid :
+  WfP b -> b_get (k_node u) b = Some (VNode nid) -> WfP (delete_point b u nid).
+Proof.
+  intros W Hu. destruct (wf_node _ W _ _ Hu) as (n0 & E0 & Hn & Hnu). inversion E0; subst n0. clear E0.
+  constructor.
+  - unfold delete_point. repeat apply b_del_NoDup. apply (wf_nodup _ W).
+  - intros u' v. rewrite delete_point_node. destruct (bytes_eqb u' u) eqn:E; [discriminate|].
+    intros H. destruct (wf_node _ W _ _ H) as (n & -> & Hn' & Hu').
+    exists n. repeat split; [assumption|]. rewrite delete_point_uuid by assumption.
+    destruct (N.eqb_spec n nid) as [->|Hne]; [|assumption].
+    rewrite Hnu in Hu'. inversion Hu'; subst. now rewrite bytes_eqb_refl in E.
+  - intros n v Hn'. rewrite delete_point_uuid by assumption.
+    destruct (N.eqb_spec n nid) as [->|Hne]; [discriminate|].
+    intros H. destruct (wf_uuid _ W _ _ Hn' H) as (u' & -> & Hu').
+    exists u'. split; [reflexivity|]. rewrite delete_point_node.
+    destruct (bytes_eqb u' u) eqn:E; [|assumption].
+    apply bytes_eqb_eq in E. subst u'. rewrite Hu in Hu'. inversion Hu'. congruence.
+  - intros n Hn'. rewrite delete_point_uuid, delete_point_data by assumption.
+    destruct (N.eqb_spec n nid) as [->|Hne]; [intros H; now contradiction H|]. now apply (wf_data1 _ W).
+  - intros n Hn'. rewrite delete_point_uuid, delete_point_data by assumption.
+    destruct (N.eqb_spec n nid) as [->|Hne]; [reflexivity|]. now apply (wf_data2 _ W).
+  - intros k v H. unfold delete_point in H.
+    apply b_del_In in H. destruct H as [H _].
+    apply b_del_In in H. destruct H as [H _].
+    apply b_del_In in H. destruct H as [H _]. now apply (wf_keys _ W k v).
+Qed.
+
+(* ========================= lookups ======================================== *)
+
+Lemma get_point_some b u nid d :
+  get_point u b = Some (nid, d) -> b_get (k_node u) b = Some (VNode nid).
+Proof.
+  unfold get_point. destruct (b_get (k_node u) b) as [[| |]|]; try discriminate.
+  intros H. now inversion H.
+Qed.
+Lemma get_point_none b u : WfP b -> get_point u b = None -> b_get (k_node u) b = None.
+Proof.
+  intros W. unfold get_point. destruct (b_get (k_node u) b) as [v|] eqn:E; [|reflexivity].
+  destruct (wf_node _ W _ _ E) as (n & -> & _). discriminate.
+Qed.
+Lemma lookup_get_point b u : lookup b u = match get_point u b with Some (_, d) => Some d | None => None end.
+Proof. reflexivity. Qed.
+Lemma m_exists_lookup b u : WfP b -> m_exists u b = match lookup b u with Some _ => true | None => false end.
+Proof.
+  intros W. unfold m_exists, lookup, get_point.
+  destruct (b_get (k_node u) b) as [v|] eqn:E; [|reflexivity].
+  destruct (wf_node _ W _ _ E) as (n & -> & _). reflexivity.
+Qed.
+
+Lemma lookup_set_point b nid u d u' :
+  WfP b -> nid < two64 ->
+  (forall v, b_get (k_uuid nid) b = Some v -> v = VUuid u) ->
+  lookup (set_point b nid u d) u' = if bytes_eqb u' u then Some d else lookup b u'.
+Proof.
+  intros W Hn C1. unfold lookup, get_point. rewrite set_point_node.
+  destruct (bytes_eqb u' u) eqn:E.
+  - rewrite set_point_data by assumption. now rewrite N.eqb_refl.
+  - destruct (b_get (k_node u') b) as [v|] eqn:Ev; [|reflexivity].
+    destruct (wf_node _ W _ _ Ev) as (n & -> & Hn' & Hu).
+    rewrite set_point_data by assumption.
+    destruct (N.eqb_spec n nid) as [->|Hne]; [|reflexivity].
+    apply C1 in Hu. inversion Hu; subst. now rewrite bytes_eqb_refl in E.
+Qed.
+
+Lemma lookup_delete_point b nid u u' :
+  WfP b -> b_get (k_node u) b = Some (VNode nid) ->
+  lookup (delete_point b u nid) u' = if bytes_eqb u' u then None else lookup b u'.
+Proof.
+  intros W Hu. destruct (wf_node _ W _ _ Hu) as (n0 & E0 & Hn & Hnu). inversion E0; subst n0. clear E0.
+  unfold lookup, get_point. rewrite delete_point_node.
+  destruct (bytes_eqb u' u) eqn:E; [reflexivity|].
+  destruct (b_get (k_node u') b) as [v|] eqn:Ev; [|reflexivity].
+  destruct (wf_node _ W _ _ Ev) as (n & -> & Hn' & Hu').
+  rewrite delete_point_data by assumption.
+  destruct (N.eqb_spec n nid) as [->|Hne]; [|reflexivity].
+  rewrite Hnu in Hu'. inversion Hu'; subst. now rewrite bytes_eqb_refl in E.
+Qed.
+
+(* ========================= abs ============================================ *)
+
+Definition data_of (b : bucket) (n : N) : doc :=
+  match b_get (k_data n) b with Some (VData d) => d | _ => [] end.
+
+Lemma abs_get_gen b l u :
+  WfP b -> incl l b ->
+  st_get u (flat_map (abs_entry b) l) =
+  match b_get (k_node u) l with Some (VNode n) => Some (data_of b n) | _ => None end.
+Proof.
+  intros W. induction l as [|[k v] r IH]; intros Hincl; [reflexivity|].
+  assert (Hr : incl r b) by (intros x Hx; apply Hincl; now right).
+  cbn [flat_map b_get]. unfold abs_entry at 1. cbn [fst snd].
+  destruct (point_uuid_from_key k) as [u'|] eqn:Ek.
+  - apply point_uuid_some in Ek. subst k.
+    assert (Hv : b_get (k_node u') b = Some v).
+    { apply In_b_get; [apply (wf_nodup _ W)|]. apply Hincl. now left. }
+    destruct (wf_node _ W _ _ Hv) as (n & -> & _).
+    cbn [app st_get]. rewrite k_node_eqb. destruct (bytes_eqb u u'); [reflexivity|]. now apply IH.
+  - cbn [app]. rewrite IH by assumption.
+    destruct (bytes_eqb (k_node u) k) eqn:E; [|reflexivity].
+    apply bytes_eqb_eq in E. subst k. rewrite point_uuid_k_node in Ek. discriminate.
+Qed.
+
+Lemma abs_get b u : WfP b -> st_get u (abs_bucket b) = lookup b u.
+Proof.
+  intros W. unfold abs_bucket. rewrite abs_get_gen; [|assumption|apply incl_refl].
+  unfold lookup, get_point, data_of. destruct (b_get (k_node u) b) as [[| |]|]; reflexivity.
+Qed.
+
+(* number of points of a bucket *)
+Definition is_pt (kv : bytes * bval) : bool :=
+  match point_uuid_from_key (fst kv), snd kv with Some _, VNode _ => true | _, _ => false end.
+Definition npts (l : bucket) : nat := length (filter is_pt l).
+
+Lemma abs_length_gen b l : length (flat_map (abs_entry b) l) = npts l.
+Proof.
+  induction l as [|[k v] r IH]; [reflexivity|].
+  cbn [flat_map]. rewrite app_length, IH. unfold npts. cbn [filter].
+  unfold abs_entry, is_pt. cbn [fst snd].
+  destruct (point_uuid_from_key k); [destruct v|]; reflexivity.
+Qed.
+Lemma abs_length b : length (abs_bucket b) = npts b.
+Proof. apply abs_length_gen. Qed.
+
+Lemma npts_del_other k l : point_uuid_from_key k = None -> npts (b_del k l) = npts l.
+Proof.
+  intros Hk. induction l as [|[i v] r IH]; [reflexivity|]. cbn [b_del].
+  destruct (bytes_eqb k i) eqn:E.
+  - apply bytes_eqb_eq in E. subst i. rewrite IH. unfold npts. cbn [filter]. unfold is_pt at 2. cbn [fst].
+    now rewrite Hk.
+  - unfold npts in *. cbn [filter]. destruct (is_pt (i, v)); cbn [length]; now rewrite IH.
+Qed.
+Lemma npts_put_other k v l : point_uuid_from_key k = None -> npts (b_put k v l) = npts l.
+Proof.
+  intros Hk. unfold b_put. unfold npts at 1. cbn [filter]. unfold is_pt at 1. cbn [fst]. rewrite Hk.
+  now apply npts_del_other.
+Qed.
+Lemma npts_del_node u n l :
+  NoDup (map fst l) -> b_get (k_node u) l = Some (VNode n) -> (npts (b_del (k_node u) l) + 1 = npts l)%nat.
+Proof.
+  induction l as [|[i v] r IH]; cbn [b_get b_del map]; intros Hnd H; [discriminate|].
+  inversion Hnd; subst. destruct (bytes_eqb (k_node u) i) eqn:E.
+  - apply bytes_eqb_eq in E. subst i. inversion H; subst v.
+    assert (Hr : b_get (k_node u) r = None).
+    { destruct (b_get (k_node u) r) as [b0|] eqn:Er; [|reflexivity]. apply b_get_In in Er.
+      exfalso. apply H2. apply in_map_iff. now exists (k_node u, b0). }
+    rewrite (b_del_absent _ _ Hr). unfold npts. cbn [filter]. unfold is_pt at 2. cbn [fst snd].
+    rewrite point_uuid_k_node. cbn [length]. lia.
+  - specialize (IH H3 H). unfold npts in *. cbn [filter]. destruct (is_pt (i, v)); cbn [length]; lia.
+Qed.
+
+Lemma npts_set_point_fresh b nid u d :
+  b_get (k_node u) b = None -> npts (set_point b nid u d) = S (npts b).
+Proof.
+  intros Hu. unfold set_point. rewrite npts_put_other by apply point_uuid_k_uuid.
+  unfold b_put at 1. unfold npts at 1. cbn [filter]. unfold is_pt at 1. cbn [fst snd].
+  rewrite point_uuid_k_node. cbn [length]. f_equal.
+  rewrite b_del_absent.
+  - fold (npts (b_put (k_uuid nid) (VUuid u) b)). now rewrite npts_put_other by apply point_uuid_k_uuid.
+  - rewrite b_get_put, k_node_uuid_eqb. assumption.
+Qed.
+Lemma npts_set_point_same b nid u d :
+  NoDup (map fst b) -> b_get (k_node u) b = Some (VNode nid) -> npts (set_point b nid u d) = npts b.
+Proof.
+  intros Hnd Hu. unfold set_point. rewrite npts_put_other by apply point_uuid_k_uuid.
+  unfold b_put at 1. unfold npts at 1. cbn [filter]. unfold is_pt at 1. cbn [fst snd].
+  rewrite point_uuid_k_node. cbn [length].
+  fold (npts (b_del (k_node u) (b_put (k_uuid nid) (VUuid u) b))).
+  pose proof (npts_del_node u nid (b_put (k_uuid nid) (VUuid u) b)) as H.
+  rewrite npts_put_other in H by apply point_uuid_k_uuid.
+  rewrite <- H; [lia|now apply b_put_NoDup|].
+  rewrite b_get_put, k_node_uuid_eqb. assumption.
+Qed.
+Lemma npts_delete_point b nid u :
+  NoDup (map fst b) -> b_get (k_node u) b = Some (VNode nid) -> (npts (delete_point b u nid) + 1 = npts b)%nat.
+Proof.
+  intros Hnd Hu. unfold delete_point. rewrite !npts_del_other by apply point_uuid_k_uuid.
+  now apply (npts_del_node u nid).
+Qed.
+
+(* ========================= the id counter ================================= *)
+
+Lemma memN_In x l : memN x l = true <-> In x l.
+Proof.
+  induction l as [|y r IH]; cbn; [split; [discriminate|contradiction]|].
+  rewrite orb_true_iff, IH, N.eqb_eq. split; intros [H|H]; auto.
+Qed.
+Lemma memN_notIn x l : memN x l = false <-> ~ In x l.
+Proof. rewrite <- memN_In. destruct (memN x l); split; congruence. Qed.
+Lemma removeN_In x y l : In y (removeN x l) <-> In y l /\ y <> x.
+Proof.
+  induction l as [|z r IH]; cbn; [tauto|].
+  destruct (N.eqb_spec x z) as [->|Hne].
+  - rewrite IH. split; [tauto|]. intros [[->|H] Hn]; [contradiction|tauto].
+  - cbn. rewrite IH. split; [intros [->|H]; [split; [now left|congruence]|tauto]|tauto].
+Qed.
+Lemma removeN_NoDup x l : NoDup l -> NoDup (removeN x l).
+Proof.
+  induction l as [|z r IH]; cbn; intros H; [constructor|]. inversion H; subst.
+  destruct (x =? z); [now apply IH|]. constructor; [|now apply IH].
+  rewrite removeN_In. tauto.
+Qed.
+Lemma dedupN_NoDup_id l : NoDup l -> dedupN l = l.
+Proof.
+  induction l as [|x r IH]; cbn; intros H; [reflexivity|]. inversion H; subst.
+  apply memN_notIn in H2. rewrite H2. now rewrite IH.
+Qed.
+Lemma dedupN_In x l : In x (dedupN l) <-> In x l.
+Proof.
+  induction l as [|y r IH]; cbn; [tauto|].
+  destruct (memN y r) eqn:E.
+  - rewrite IH. apply memN_In in E. split; [tauto|]. intros [->|H]; assumption.
+  - cbn. rewrite IH. tauto.
+Qed.
+Lemma dedupN_NoDup l : NoDup (dedupN l).
+Proof.
+  induction l as [|y r IH]; cbn; [constructor|].
+  destruct (memN y r) eqn:E; [assumption|].
+  constructor; [|assumption]. rewrite dedupN_In. now apply memN_notIn.
+Qed.
+
+Lemma first_node_id_2 : first_node_id = 2.
+Proof. reflexivity. Qed.
+
+Lemma AInv_init : AInv [] [] first_node_id.
+Proof.
+  constructor; cbn.
+  - constructor.
+  - contradiction.
+  - intros n _ H. now contradiction H.
+  - intros n H. lia.
+  - rewrite first_node_id_2. unfold two64. lia.
+Qed.
+
+(* one NextId + SetPoint: the chosen id was not live, is a uint64, and the
+   allocator invariant holds again once the id is live *)
+Lemma next_id_step b fl nf c fl' nf' b' :
+  AInv b fl nf -> next_id c fl nf = Some (fl', nf') ->
+  c < two64 /\ b_get (k_uuid c) b = None /\
+  ((forall n, n < two64 -> b_get (k_uuid n) b' = if n =? c then b_get (k_uuid c) b' else b_get (k_uuid n) b) ->
+   b_get (k_uuid c) b' <> None -> AInv b' fl' nf').
+Proof.
+  intros A. pose proof (a_nf _ _ _ A) as Hnf. unfold next_id.
+  destruct (memN c fl) eqn:Em.
+  - intros H. inversion H; subst fl' nf'. clear H. apply memN_In in Em.
+    destruct (a_free _ _ _ A _ Em) as [Hr Hc].
+    split; [lia|]. split; [assumption|]. intros Hb' Hlive. constructor.
+    + apply removeN_NoDup, (a_nodup _ _ _ A).
+    + intros n Hn. apply removeN_In in Hn. destruct Hn as [Hn Hne].
+      destruct (a_free _ _ _ A _ Hn) as [Hr' Hc']. split; [assumption|].
+      rewrite Hb' by lia. destruct (N.eqb_spec n c); [contradiction|assumption].
+    + intros n Hn. rewrite Hb' by assumption. destruct (N.eqb_spec n c) as [->|Hne]; [intros _; assumption|].
+      now apply (a_live _ _ _ A).
+    + intros n Hn. destruct (N.eq_dec n c) as [->|Hne]; [now right|].
+      destruct (a_cover _ _ _ A _ Hn) as [H|H].
+      * left. apply removeN_In. now split.
+      * right. rewrite Hb' by lia. destruct (N.eqb_spec n c); [contradiction|assumption].
+    + assumption.
+  - destruct fl as [|x fl0]; [|discriminate].
+    destruct (N.eqb_spec c nf) as [->|Hne]; cbn [andb]; [|discriminate].
+    destruct (N.ltb_spec (nf + 1) two64) as [Hlt|]; [|discriminate].
+    intros H. inversion H; subst fl' nf'. clear H.
+    assert (Hfresh : b_get (k_uuid nf) b = None).
+    { destruct (b_get (k_uuid nf) b) eqn:E; [|reflexivity].
+      assert (Hl : b_get (k_uuid nf) b <> None) by congruence.
+      apply (a_live _ _ _ A) in Hl; lia. }
+    split; [lia|]. split; [assumption|]. intros Hb' Hlive. constructor.
+    + constructor.
+    + contradiction.
+    + intros n Hn. rewrite Hb' by assumption. destruct (N.eqb_spec n nf) as [->|Hne]; [intros _; lia|].
+      intros H. apply (a_live _ _ _ A) in H; [lia|assumption].
+    + intros n Hn. right. destruct (N.eq_dec n nf) as [->|Hne]; [assumption|].
+      rewrite Hb' by lia. destruct (N.eqb_spec n nf); [contradiction|].
+      destruct (a_cover _ _ _ A n) as [H|H]; [lia|contradiction|assumption].
+    + lia.
+Qed.
+
+(* ========================= the insert loop ================================ *)
+
+Lemma insert_go_sim ps : forall cs b fl nf b' fl' nf' s,
+  WfP b -> AInv b fl nf -> (forall u, lookup b u = st_get u s) ->
+  NoDup (map fst ps) -> (forall p, In p ps -> b_get (k_node (fst p)) b = None) ->
+  m_insert_go ps cs b fl nf = Some (b', fl', nf') ->
+  WfP b' /\ AInv b' fl' nf' /\
+  (forall u, lookup b' u = st_get u (fold_left (fun acc p => st_set (fst p) (snd p) acc) ps s)) /\
+  npts b' = (npts b + length ps)%nat.
+Proof.
+  induction ps as [|[u d] r IH]; intros cs b fl nf b' fl' nf' s W A L Hnd Hfresh H.
+  - destruct cs; [|discriminate]. inversion H; subst. cbn.
+    split; [assumption|split; [assumption|split; [assumption|lia]]].
+  - destruct cs as [|c cs']; [discriminate|]. cbn [m_insert_go] in H.
+    destruct (next_id c fl nf) as [[fl1 nf1]|] eqn:En; [|discriminate].
+    destruct (next_id_step b fl nf c fl1 nf1 (set_point b c u d) A En) as (Hc & Hcf & HA).
+    assert (Hu : b_get (k_node u) b = None) by (apply (Hfresh (u, d)); now left).
+    assert (C1 : forall v, b_get (k_uuid c) b = Some v -> v = VUuid u) by (rewrite Hcf; discriminate).
+    assert (C2 : forall v, b_get (k_node u) b = Some v -> v = VNode c) by (rewrite Hu; discriminate).
+    inversion Hnd; subst. cbn [map fst] in *.
+    apply IH with (s := st_set u d s) in H.
+    + destruct H as (W' & A' & L' & N').
+      split; [assumption|split; [assumption|split; [assumption|]]].
+      rewrite N'. rewrite npts_set_point_fresh by assumption. cbn [length]. lia.
+    + now apply WfP_set_point.
+    + apply HA.
+      * intros n Hn. rewrite !set_point_uuid by assumption. rewrite N.eqb_refl. reflexivity.
+      * rewrite set_point_uuid by assumption. rewrite N.eqb_refl. discriminate.
+    + intros u'. rewrite lookup_set_point by assumption. rewrite st_get_set.
+      destruct (bytes_eqb u' u); [reflexivity|apply L].
+    + assumption.
+    + intros p Hp. rewrite set_point_node.
+      destruct (bytes_eqb (fst p) u) eqn:E.
+      * apply bytes_eqb_eq in E. exfalso. apply H2. rewrite <- E. now apply in_map.
+      * apply Hfresh. now right.
+Qed.
+
+(* ========================= the update loop ================================ *)
+
+Lemma update_go_sim sc maxsize ps : forall b s b' ids es s' ids' es',
+  WfP b -> (forall u, lookup b u = st_get u s) ->
+  m_update_go sc maxsize ps b = (b', ids, es) ->
+  update_go sc maxsize ps s = (s', ids', es') ->
+  ids = ids' /\ es = es' /\ WfP b' /\ (forall u, lookup b' u = st_get u s') /\
+  (forall n, n < two64 -> (b_get (k_uuid n) b' = None <-> b_get (k_uuid n) b = None)) /\
+  npts b' = npts b.
+Proof.
+  induction ps as [|[u inc] r IH]; intros b s b' ids es s' ids' es' W L HM HS.
+  - cbn in HM, HS. inversion HM; inversion HS; subst.
+    split; [reflexivity|split; [reflexivity|split; [assumption|split; [assumption|split; [tauto|reflexivity]]]]].
+  - cbn [m_update_go update_go] in HM, HS.
+    pose proof (L u) as Lu. unfold lookup in Lu.
+    destruct (get_point u b) as [[nid old]|] eqn:Eg.
+    + rewrite <- Lu in HS.
+      apply get_point_some in Eg.
+      destruct (wf_node _ W _ _ Eg) as (n0 & E0 & Hn & Hnu). inversion E0; subst n0. clear E0.
+      set (merged := merge_doc delete_value old inc) in *.
+      destruct (m_update_go sc maxsize r (set_point b nid u merged)) as [[b1 ids1] es1] eqn:EM.
+      destruct (update_go sc maxsize r (st_set u merged s)) as [[s1 ids1'] es1'] eqn:ES.
+      inversion HM; inversion HS; subst. clear HM HS.
+      assert (C1 : forall v, b_get (k_uuid nid) b = Some v -> v = VUuid u) by (rewrite Hnu; now inversion 1).
+      assert (C2 : forall v, b_get (k_node u) b = Some v -> v = VNode nid) by (rewrite Eg; now inversion 1).
+      assert (L1 : forall u', lookup (set_point b nid u merged) u' = st_get u' (st_set u merged s)).
+      { intros u'. rewrite lookup_set_point by assumption. rewrite st_get_set.
+        destruct (bytes_eqb u' u); [reflexivity|apply L]. }
+      destruct (IH _ _ _ _ _ _ _ _ (WfP_set_point b nid u merged W Hn C1 C2) L1 EM ES)
+        as (-> & -> & W' & L' & U' & N').
+      split; [reflexivity|split; [reflexivity|split; [assumption|split; [assumption|split]]]].
+      * intros n Hn'. split.
+        -- intros H. apply U' in H; [|assumption]. rewrite set_point_uuid in H by assumption.
+           destruct (N.eqb_spec n nid); [discriminate|assumption].
+        -- intros H. apply U'; [assumption|]. rewrite set_point_uuid by assumption.
+           destruct (N.eqb_spec n nid) as [->|]; [congruence|assumption].
+      * rewrite N'. apply npts_set_point_same; [apply (wf_nodup _ W)|assumption].
+    + rewrite <- Lu in HS. now apply (IH b s).
+Qed.
+
+(* ========================= the delete loop ================================ *)
+
+Lemma NoDup_snoc {A} (l : list A) x : NoDup l -> ~ In x l -> NoDup (l ++ [x]).
+Proof.
+  induction l as [|y r IH]; cbn; intros H Hx.
+  - constructor; [intros []|constructor].
+  - inversion H; subst. constructor.
+    + rewrite in_app_iff. cbn. intros [Hy|[Hy|[]]]; [contradiction|]. subst. apply Hx. now left.
+    + apply IH; [assumption|]. intros Hi. apply Hx. now right.
+Qed.
+
+Lemma AInv_delete b fl nf u nid :
+  WfP b -> AInv b fl nf -> b_get (k_node u) b = Some (VNode nid) ->
+  AInv (delete_point b u nid) (fl ++ [nid]) nf.
+Proof.
+  intros W A Hu. destruct (wf_node _ W _ _ Hu) as (n0 & E0 & Hn & Hnu). inversion E0; subst n0. clear E0.
+  assert (Hlive : b_get (k_uuid nid) b <> None) by congruence.
+  pose proof (a_live _ _ _ A _ Hn Hlive) as Hr.
+  pose proof (a_nf _ _ _ A) as Hnf.
+  constructor.
+  - apply NoDup_snoc; [apply (a_nodup _ _ _ A)|].
+    intros Hi. apply (a_free _ _ _ A) in Hi. destruct Hi as [_ Hi]. contradiction.
+  - intros n Hi. apply in_app_iff in Hi. cbn in Hi. destruct Hi as [Hi|[<-|[]]].
+    + destruct (a_free _ _ _ A _ Hi) as [Hr' Hf]. split; [assumption|].
+      rewrite delete_point_uuid by lia. destruct (n =? nid); [reflexivity|assumption].
+    + split; [assumption|]. rewrite delete_point_uuid by assumption. now rewrite N.eqb_refl.
+  - intros n Hn'. rewrite delete_point_uuid by assumption.
+    destruct (N.eqb_spec n nid); [intros H; now contradiction H|]. now apply (a_live _ _ _ A).
+  - intros n Hn'. rewrite in_app_iff. cbn. destruct (N.eq_dec n nid) as [->|Hne]; [left; right; now left|].
+    destruct (a_cover _ _ _ A _ Hn') as [H|H]; [now left; left|].
+    right. rewrite delete_point_uuid by lia. destruct (N.eqb_spec n nid); [contradiction|assumption].
+  - assumption.
+Qed.
+
+Lemma delete_go_sim ids : forall b fl nf s b' fl' del,
+  WfP b -> AInv b fl nf -> (forall u, lookup b u = st_get u s) -> NoDup ids ->
+  m_delete_go ids b fl = (b', fl', del) ->
+  del = filter (fun id => st_mem id s) ids /\ WfP b' /\ AInv b' fl' nf /\
+  (forall u, lookup b' u = st_get u (fold_left (fun acc id => st_remove id acc) del s)) /\
+  (npts b' + length del = npts b)%nat.
+Proof.
+  induction ids as [|u r IH]; intros b fl nf s b' fl' del W A L Hnd H.
+  - cbn in H. inversion H; subst. cbn.
+    split; [reflexivity|split; [assumption|split; [assumption|split; [assumption|lia]]]].
+  - cbn [m_delete_go] in H. inversion Hnd; subst.
+    pose proof (L u) as Lu. unfold lookup in Lu. cbn [filter]. unfold st_mem at 1.
+    destruct (get_point u b) as [[nid old]|] eqn:Eg.
+    + rewrite <- Lu. apply get_point_some in Eg.
+      destruct (m_delete_go r (delete_point b u nid) (fl ++ [nid])) as [[b1 fl1] del1] eqn:EM.
+      inversion H; subst. clear H.
+      destruct (IH (delete_point b u nid) (fl ++ [nid]) nf (st_remove u s) b' fl' del1) as (Hd & W' & A' & L' & N').
+      * now apply WfP_delete_point.
+      * now apply AInv_delete.
+      * intros u'. rewrite (lookup_delete_point b nid u u' W Eg), st_get_remove.
+        destruct (bytes_eqb u' u); [reflexivity|apply L].
+      * assumption.
+      * assumption.
+      * split; [|split; [assumption|split; [assumption|split; [assumption|]]]].
+        -- f_equal. rewrite Hd. apply filter_ext_in. intros id Hid. unfold st_mem.
+           rewrite st_get_remove. destruct (bytes_eqb id u) eqn:E; [|reflexivity].
+           apply bytes_eqb_eq in E. subst. contradiction.
+        -- cbn [length]. pose proof (npts_delete_point b nid u (wf_nodup _ W) Eg). lia.
+    + rewrite <- Lu. now apply (IH b fl nf s).
+Qed.
+
+(* ========================= one batch ====================================== *)
+
+(* the simulation relation: M is well-formed and reads like S *)
+Definition Sim (m : mstate) (s : store) : Prop :=
+  InvM m /\ forall u, lookup (pts m) u = st_get u s.
+
+Lemma InvM_init : InvM m_init.
+Proof. constructor; cbn; [apply WfP_empty|apply AInv_init|reflexivity]. Qed.
+Lemma Sim_init : Sim m_init [].
+Proof. split; [apply InvM_init|reflexivity]. Qed.
+
+Lemma m_exists_st_mem m s u : Sim m s -> m_exists u (pts m) = st_mem u s.
+Proof.
+  intros [I L]. rewrite m_exists_lookup by apply (inv_wf _ I). rewrite L. reflexivity.
+Qed.
+
+Lemma existsb_false_In {A} (f : A -> bool) l x : existsb f l = false -> In x l -> f x = false.
+Proof.
+  intros H Hx. destruct (f x) eqn:E; [|reflexivity].
+  assert (existsb f l = true) by (apply existsb_exists; now exists x). congruence.
+Qed.
+
+Lemma lookup_none_key b u : WfP b -> lookup b u = None -> b_get (k_node u) b = None.
+Proof.
+  intros W H. apply get_point_none; [assumption|]. unfold lookup in H.
+  destruct (get_point u b) as [[? ?]|]; [discriminate|reflexivity].
+Qed.
+
+Lemma insert_sim sc ps cs m s m' o :
+  Sim m s -> m_insert sc ps cs m = Some (m', o) ->
+  o = snd (insert_spec sc ps s) /\ Sim m' (fst (insert_spec sc ps s)).
+Proof.
+  intros HS H. pose proof HS as [I L]. unfold m_insert in H. unfold insert_spec.
+  destruct (has_dup (map fst ps)) eqn:Ed.
+  - inversion H; subst. cbn. now split.
+  - rewrite (existsb_ext' (fun p => m_exists (fst p) (pts m)) (fun p => st_mem (fst p) s)) in H
+      by (intros p _; now apply m_exists_st_mem).
+    destruct (existsb (fun p => st_mem (fst p) s) ps) eqn:Ee.
+    + cbn [app] in *. inversion H; subst. cbn. now split.
+    + cbn [app] in *. destruct (forallb (fun p => well_typed sc (snd p)) ps) eqn:Et.
+      2:{ inversion H; subst. cbn. now split. }
+      destruct (m_insert_go ps cs (pts m) (load_free (free m)) (nextfree m)) as [[[b' fl'] nf']|] eqn:Eg;
+        [|discriminate].
+      inversion H; subst. clear H. cbn [fst snd].
+      unfold load_free in Eg. rewrite dedupN_NoDup_id in Eg by apply (a_nodup _ _ _ (inv_alloc _ I)).
+      apply insert_go_sim with (s := s) in Eg.
+      * destruct Eg as (W' & A' & L' & N'). split; [reflexivity|]. split; [|exact L'].
+        constructor; cbn [pts count free nextfree]; [assumption..|].
+        unfold abs. cbn [pts]. rewrite abs_length, N'. rewrite (inv_count _ I). unfold abs.
+        rewrite abs_length. lia.
+      * apply (inv_wf _ I).
+      * apply (inv_alloc _ I).
+      * assumption.
+      * now apply has_dup_false.
+      * intros p Hp. apply lookup_none_key; [apply (inv_wf _ I)|]. rewrite L.
+        pose proof (existsb_false_In _ _ p Ee Hp) as Hm. cbn in Hm. unfold st_mem in Hm.
+        destruct (st_get (fst p) s); [discriminate|reflexivity].
+Qed.
+
+Lemma update_sim sc maxsize ps m s m' o :
+  Sim m s -> m_update sc maxsize ps m = (m', o) ->
+  o = snd (update_spec sc maxsize ps s) /\ Sim m' (fst (update_spec sc maxsize ps s)).
+Proof.
+  intros HS H. pose proof HS as [I L]. unfold m_update in H. unfold update_spec.
+  destruct (m_update_go sc maxsize ps (pts m)) as [[b' ids] es] eqn:EM.
+  destruct (update_go sc maxsize ps s) as [[s' ids'] es'] eqn:ES.
+  destruct (update_go_sim sc maxsize ps _ _ _ _ _ _ _ _ (inv_wf _ I) L EM ES) as (-> & -> & W' & L' & U' & N').
+  destruct es' as [|e es'].
+  - inversion H; subst. cbn [fst snd]. split; [reflexivity|]. split; [|exact L'].
+    pose proof (inv_alloc _ I) as A.
+    constructor; cbn [pts count free nextfree]; [assumption| |].
+    + constructor.
+      * apply (a_nodup _ _ _ A).
+      * intros n Hn. destruct (a_free _ _ _ A _ Hn) as [Hr Hf]. split; [assumption|].
+        apply U'; [|assumption]. pose proof (a_nf _ _ _ A). lia.
+      * intros n Hn Hl. apply (a_live _ _ _ A); [assumption|]. intros Hc. apply Hl. now apply U'.
+      * intros n Hn. destruct (a_cover _ _ _ A _ Hn) as [Hc|Hc]; [now left|right].
+        intros Hc'. apply Hc. apply U'; [|assumption]. pose proof (a_nf _ _ _ A). lia.
+      * apply (a_nf _ _ _ A).
+    + unfold abs. cbn [pts]. rewrite abs_length, N'. rewrite (inv_count _ I). unfold abs. now rewrite abs_length.
+  - inversion H; subst. cbn [fst snd]. now split.
+Qed.
+
+Lemma delete_sim ids m s m' o :
+  Sim m s -> m_delete ids m = (m', o) ->
+  o = snd (delete_spec ids s) /\ Sim m' (fst (delete_spec ids s)).
+Proof.
+  intros HS H. pose proof HS as [I L]. unfold m_delete in H. unfold delete_spec.
+  unfold load_free in H. rewrite dedupN_NoDup_id in H by apply (a_nodup _ _ _ (inv_alloc _ I)).
+  destruct (m_delete_go (dedup ids) (pts m) (free m)) as [[b' fl'] del] eqn:EM.
+  inversion H; subst. clear H. cbn [fst snd].
+  destruct (delete_go_sim _ _ _ _ _ _ _ _ (inv_wf _ I) (inv_alloc _ I) L (dedup_NoDup ids) EM)
+    as (Hd & W' & A' & L' & N').
+  rewrite <- Hd. split; [reflexivity|]. split; [|exact L'].
+  constructor; cbn [pts count free nextfree]; [assumption..|].
+  unfold abs. cbn [pts]. rewrite abs_length. rewrite (inv_count _ I). unfold abs. rewrite abs_length. lia.
+Qed.
+
+Lemma apply_sim sc maxsize b cs m s m' o :
+  Sim m s -> m_apply sc maxsize b cs m = Some (m', o) ->
+  o = snd (apply_spec sc maxsize b s) /\ Sim m' (fst (apply_spec sc maxsize b s)).
+Proof.
+  intros HS H. destruct b as [ps|ps|ids]; cbn [m_apply apply_spec] in *.
+  - now apply (insert_sim sc ps cs m).
+  - inversion H as [H']. now apply (update_sim sc maxsize ps m).
+  - inversion H as [H']. now apply (delete_sim ids m).
+Qed.
+
+(* ========================= histories ====================================== *)
+
+Lemma run_sim sc maxsize h : forall css m s m' outs,
+  Sim m s -> runM sc maxsize h css m = Some (m', outs) ->
+  outs = snd (runS sc maxsize h s) /\ Sim m' (fst (runS sc maxsize h s)).
+Proof.
+  induction h as [|b r IH]; intros css m s m' outs HS H; cbn [runM runS] in *.
+  - inversion H; subst. now split.
+  - destruct (m_apply sc maxsize b (hd [] css) m) as [[m1 o1]|] eqn:E1; [|discriminate].
+    destruct (runM sc maxsize r (tl css) m1) as [[m2 os]|] eqn:E2; [|discriminate].
+    inversion H; subst. clear H.
+    destruct (apply_sim _ _ _ _ _ _ _ _ HS E1) as [Ho HS1].
+    destruct (apply_spec sc maxsize b s) as [s1 o1'] eqn:ES. cbn [fst snd] in *.
+    destruct (IH _ _ _ _ _ HS1 E2) as [Hos HS2].
+    destruct (runS sc maxsize r s1) as [s2 os'] eqn:ER. cbn [fst snd] in *. subst. now split.
+Qed.
+
+Lemma doc_equiv_refl d : doc_equiv d d.
+Proof. intros k. reflexivity. Qed.
+Lemma store_same_equiv a b : store_same a b -> store_equiv a b.
+Proof.
+  intros H id. rewrite (H id). destruct (st_get id b); [apply doc_equiv_refl|exact I].
+Qed.
+
+Lemma refines sc maxsize h css m outs :
+  runM sc maxsize h css m_init = Some (m, outs) ->
+  store_same (abs m) (fst (runS sc maxsize h [])) /\
+  store_equiv (abs m) (fst (runS sc maxsize h [])) /\
+  outs = snd (runS sc maxsize h []).
+Proof.
+  intros H. destruct (run_sim _ _ _ _ _ _ _ _ Sim_init H) as [Ho [I L]].
+  assert (HS : store_same (abs m) (fst (runS sc maxsize h []))).
+  { intros id. unfold abs. rewrite abs_get by apply (inv_wf _ I). apply L. }
+  split; [assumption|]. split; [now apply store_same_equiv|assumption].
+Qed.
+
+Lemma reachable_inv sc maxsize m : reachable sc maxsize m -> InvM m.
+Proof.
+  intros (h & css & outs & H). destruct (run_sim _ _ _ _ _ _ _ _ Sim_init H) as [_ [I _]]. exact I.
+Qed.
+
+(* a rejected batch leaves M unchanged *)
+Lemma failed_batch_noop sc maxsize b cs m m' es :
+  m_apply sc maxsize b cs m = Some (m', SErr es) -> m' = m /\ abs m' = abs m.
+Proof.
+  intros H. assert (m' = m); [|subst; now split].
+  destruct b as [ps|ps|ids]; cbn [m_apply] in H.
+  - unfold m_insert in H. destruct (has_dup (map fst ps)); [now inversion H|].
+    destruct ((if existsb (fun p => m_exists (fst p) (pts m)) ps then [ERR_EXISTS] else []) ++
+              (if forallb (fun p => well_typed sc (snd p)) ps then [] else [ERR_TYPE])) eqn:E.
+    + destruct (m_insert_go ps cs (pts m) (load_free (free m)) (nextfree m)) as [[[? ?] ?]|]; [|discriminate].
+      inversion H.
+    + now inversion H.
+  - unfold m_update in H. destruct (m_update_go sc maxsize ps (pts m)) as [[b' ids] es0].
+    destruct es0; now inversion H.
+  - unfold m_delete in H. destruct (m_delete_go (dedup ids) (pts m) (load_free (free m))) as [[? ?] ?].
+    inversion H.
+Qed.
+
+(* the allocator can always proceed *)
+Fixpoint pick_choices (n : nat) (fl : list N) (nf : N) : list N :=
+  match n with
+  | O => []
+  | S n' => match fl with
+            | c :: _ => c :: pick_choices n' (removeN c fl) nf
+            | [] => nf :: pick_choices n' [] (nf + 1)
+            end
+  end.
+
+Lemma pick_choices_ok ps : forall b fl nf,
+  nf + N.of_nat (length ps) < two64 ->
+  m_insert_go ps (pick_choices (length ps) fl nf) b fl nf <> None.
+Proof.
+  induction ps as [|[u d] r IH]; intros b fl nf Hb; cbn [length pick_choices m_insert_go]; [discriminate|].
+  destruct fl as [|c fl0].
+  - unfold next_id. cbn [memN]. rewrite N.eqb_refl. cbn [andb].
+    destruct (N.ltb_spec (nf + 1) two64) as [_|Hge]; [|cbn [length] in Hb; lia].
+    apply IH. cbn [length] in Hb. lia.
+  - unfold next_id. cbn [memN]. rewrite N.eqb_refl. cbn [orb].
+    apply IH. cbn [length] in Hb. lia.
+Qed.
+
+Lemma choice_exists sc maxsize b m :
+  nextfree m + (match b with BInsert ps => N.of_nat (length ps) | _ => 0 end) < two64 ->
+  exists cs, m_apply sc maxsize b cs m <> None.
+Proof.
+  intros Hb. destruct b as [ps|ps|ids]; cbn [m_apply]; [|exists []; discriminate..].
+  exists (pick_choices (length ps) (load_free (free m)) (nextfree m)).
+  unfold m_insert. destruct (has_dup (map fst ps)); [discriminate|].
+  destruct ((if existsb (fun p => m_exists (fst p) (pts m)) ps then [ERR_EXISTS] else []) ++
+            (if forallb (fun p => well_typed sc (snd p)) ps then [] else [ERR_TYPE])); [|discriminate].
+  pose proof (pick_choices_ok ps (pts m) (load_free (free m)) (nextfree m) Hb) as H.
+  destruct (m_insert_go ps (pick_choices (length ps) (load_free (free m)) (nextfree m)) (pts m)
+              (load_free (free m)) (nextfree m)) as [[[? ?] ?]|]; [discriminate|contradiction].
+Qed.
+
+(* ========================= facts about the reference spec ================= *)
+
+Lemma st_get_notin u (s : store) : ~ In u (map fst s) -> st_get u s = None.
+Proof.
+  induction s as [|[i d] r IH]; cbn; intros H; [reflexivity|].
+  destruct (bytes_eqb u i) eqn:E.
+  - apply bytes_eqb_eq in E. subst. exfalso. apply H. now left.
+  - apply IH. intros Hi. apply H. now right.
+Qed.
+Lemma st_get_In u d (s : store) : st_get u s = Some d -> In (u, d) s.
+Proof.
+  induction s as [|[i x] r IH]; cbn; [discriminate|].
+  destruct (bytes_eqb u i) eqn:E.
+  - apply bytes_eqb_eq in E. subst. intros H. inversion H. now left.
+  - intros H. right. now apply IH.
+Qed.
+
+Lemma fold_set_get ps : forall s id, NoDup (map fst ps) ->
+  st_get id (fold_left (fun acc p => st_set (fst p) (snd p) acc) ps s) =
+  match st_get id ps with Some d => Some d | None => st_get id s end.
+Proof.
+  induction ps as [|[u d] r IH]; intros s id Hnd; [reflexivity|].
+  inversion Hnd; subst. cbn [fold_left fst snd st_get]. rewrite IH by assumption.
+  destruct (bytes_eqb id u) eqn:E.
+  - apply bytes_eqb_eq in E. subst id. rewrite (st_get_notin u r) by assumption.
+    rewrite st_get_set. now rewrite bytes_eqb_refl.
+  - rewrite st_get_set, E. reflexivity.
+Qed.
+
+Lemma forallb_false_ex {A} (f : A -> bool) l : forallb f l = false -> exists x, In x l /\ f x = false.
+Proof.
+  induction l as [|x r IH]; cbn; [discriminate|].
+  destruct (f x) eqn:E; cbn.
+  - intros H. destruct (IH H) as (y & Hy & Ey). exists y. split; [now right|assumption].
+  - intros _. exists x. split; [now left|assumption].
+Qed.
+
+Definition insert_bad (sc : schema) (ps : list (uuid * doc)) (s : store) : Prop :=
+  ~ NoDup (map fst ps) \/ (exists p, In p ps /\ st_get (fst p) s <> None) \/
+  (exists p, In p ps /\ well_typed sc (snd p) = false).
+
+Lemma spec_insert_rejects sc ps s :
+  (insert_bad sc ps s -> exists es, es <> [] /\ insert_spec sc ps s = (s, SErr es)) /\
+  (~ insert_bad sc ps s ->
+     snd (insert_spec sc ps s) = SOk [] /\
+     forall id, st_get id (fst (insert_spec sc ps s)) =
+                match st_get id ps with Some d => Some d | None => st_get id s end).
+Proof.
+  unfold insert_spec, insert_bad. destruct (has_dup (map fst ps)) eqn:Ed.
+  - split.
+    + intros _. exists [ERR_DUP]. split; [discriminate|reflexivity].
+    + intros H. exfalso. apply H. left. intros Hn. apply has_dup_false in Hn. congruence.
+  - apply has_dup_false in Ed.
+    destruct (existsb (fun p => st_mem (fst p) s) ps) eqn:Ee.
+    + split.
+      * intros _. eexists. split; [|reflexivity]. discriminate.
+      * intros H. exfalso. apply H. right. left. apply existsb_exists in Ee.
+        destruct Ee as (p & Hp & Hm). exists p. split; [assumption|]. now apply st_mem_get.
+    + destruct (forallb (fun p => well_typed sc (snd p)) ps) eqn:Et; cbn [app].
+      * split.
+        -- intros [H|[(p & Hp & Hm)|(p & Hp & Hm)]].
+           ++ contradiction.
+           ++ apply st_mem_get in Hm. pose proof (existsb_false_In _ _ p Ee Hp) as Hf. cbn in Hf. congruence.
+           ++ rewrite forallb_forall in Et. specialize (Et p Hp). congruence.
+        -- intros _. cbn [fst snd]. split; [reflexivity|]. intros id. now apply fold_set_get.
+      * split.
+        -- intros _. eexists. split; [|reflexivity]. discriminate.
+        -- intros H. exfalso. apply H. right. right. now apply forallb_false_ex in Et.
+Qed.
+
+Lemma update_go_reports sc maxsize ps : forall s s' ids es,
+  update_go sc maxsize ps s = (s', ids, es) ->
+  (forall id, In id ids <-> (In id (map fst ps) /\ st_get id s <> None)) /\
+  (forall id, st_get id s' <> None <-> st_get id s <> None).
+Proof.
+  induction ps as [|[u inc] r IH]; intros s s' ids es H; cbn [update_go] in H.
+  - inversion H; subst. cbn. split; intros id; tauto.
+  - destruct (st_get u s) as [old|] eqn:Eu.
+    + destruct (update_go sc maxsize r (st_set u (merge_doc delete_value old inc) s)) as [[s1 ids1] es1] eqn:E1.
+      inversion H; subst. clear H. destruct (IH _ _ _ _ E1) as [Hi Hm].
+      assert (Hset : forall id, st_get id (st_set u (merge_doc delete_value old inc) s) <> None <-> st_get id s <> None).
+      { intros id. rewrite st_get_set. destruct (bytes_eqb id u) eqn:E; [|tauto].
+        apply bytes_eqb_eq in E. subst. rewrite Eu. split; discriminate. }
+      split.
+      * intros id. cbn [In map fst]. rewrite Hi, Hset. split.
+        -- intros [<-|[H1 H2]]; [split; [now left|congruence]|split; [now right|assumption]].
+        -- intros [[<-|H1] H2]; [now left|right; now split].
+      * intros id. now rewrite Hm, Hset.
+    + destruct (IH _ _ _ _ H) as [Hi Hm]. split; [|assumption].
+      intros id. cbn [In map fst]. rewrite Hi. split; [intros [H1 H2]; split; [now right|assumption]|].
+      intros [[<-|H1] H2]; [congruence|now split].
+Qed.
+
+Lemma spec_update_reports sc maxsize ps s s' ids :
+  update_spec sc maxsize ps s = (s', SOk ids) ->
+  (forall id, In id ids <-> (In id (map fst ps) /\ st_get id s <> None)) /\
+  (forall id, st_get id s' <> None <-> st_get id s <> None).
+Proof.
+  unfold update_spec. destruct (update_go sc maxsize ps s) as [[s1 ids1] es1] eqn:E.
+  destruct es1; [|discriminate]. intros H. inversion H; subst. now apply (update_go_reports sc maxsize ps s _ _ []).
+Qed.
+
+Lemma fold_remove_get l : forall s id,
+  st_get id (fold_left (fun acc i => st_remove i acc) l s) =
+  if existsb (bytes_eqb id) l then None else st_get id s.
+Proof.
+  induction l as [|x r IH]; intros s id; [reflexivity|].
+  cbn [fold_left existsb]. rewrite IH, st_get_remove.
+  destruct (bytes_eqb id x), (existsb (bytes_eqb id) r); reflexivity.
+Qed.
+
+Lemma spec_delete_reports ids s s' known :
+  delete_spec ids s = (s', SOk known) ->
+  NoDup known /\
+  (forall id, In id known <-> (In id ids /\ st_get id s <> None)) /\
+  (forall id, In id ids -> st_get id s' = None) /\
+  (forall id, ~ In id ids -> st_get id s' = st_get id s).
+Proof.
+  unfold delete_spec. intros H. inversion H; subst. clear H.
+  assert (Hk : forall id, In id (filter (fun id0 => st_mem id0 s) (dedup ids)) <-> (In id ids /\ st_get id s <> None)).
+  { intros id. rewrite filter_In, dedup_In, st_mem_get. tauto. }
+  split; [apply NoDup_filter, dedup_NoDup|]. split; [exact Hk|]. split.
+  - intros id Hid. rewrite fold_remove_get.
+    destruct (existsb (bytes_eqb id) _) eqn:E; [reflexivity|].
+    apply existsb_bytes_notIn in E. rewrite Hk in E.
+    destruct (st_get id s) eqn:Eg; [|reflexivity]. exfalso. apply E. split; [assumption|discriminate].
+  - intros id Hid. rewrite fold_remove_get.
+    destruct (existsb (bytes_eqb id) _) eqn:E; [|reflexivity].
+    apply existsb_bytes_In in E. apply Hk in E. tauto.
+Qed.
+
+Lemma spec_rejected_unchanged sc maxsize b s es :
+  snd (apply_spec sc maxsize b s) = SErr es -> fst (apply_spec sc maxsize b s) = s.
+Proof.
+  destruct b as [ps|ps|ids]; cbn [apply_spec].
+  - unfold insert_spec. destruct (has_dup (map fst ps)); [reflexivity|].
+    destruct ((if existsb (fun p => st_mem (fst p) s) ps then [ERR_EXISTS] else []) ++
+              (if forallb (fun p => well_typed sc (snd p)) ps then [] else [ERR_TYPE])); [discriminate|reflexivity].
+  - unfold update_spec. destruct (update_go sc maxsize ps s) as [[s1 ids1] es1].
+    destruct es1; [discriminate|reflexivity].
+  - unfold delete_spec. discriminate.
+Qed.
+
+(* the shallow merge, key by key (incoming keys unique, as in a decoded msgpack map) *)
+Lemma doc_get_remove k k' d : doc_get k (doc_remove k' d) = if bytes_eqb k k' then None else doc_get k d.
+Proof.
+  induction d as [|[i v] r IH]; cbn.
+  - now destruct (bytes_eqb k k').
+  - destruct (bytes_eqb k' i) eqn:E1.
+    + apply bytes_eqb_eq in E1. subst i. rewrite IH. destruct (bytes_eqb k k'); reflexivity.
+    + cbn. rewrite IH. destruct (bytes_eqb k i) eqn:E2; [|reflexivity].
+      apply bytes_eqb_eq in E2. subst i. rewrite bytes_eqb_sym, E1. reflexivity.
+Qed.
+Lemma doc_get_set k k' v d : doc_get k (doc_set k' v d) = if bytes_eqb k k' then Some v else doc_get k d.
+Proof.
+  unfold doc_set. cbn. destruct (bytes_eqb k k') eqn:E; [reflexivity|]. rewrite doc_get_remove, E. reflexivity.
+Qed.
+Lemma doc_get_notin k (d : doc) : ~ In k (map fst d) -> doc_get k d = None.
+Proof.
+  induction d as [|[i v] r IH]; cbn; intros H; [reflexivity|].
+  destruct (bytes_eqb k i) eqn:E.
+  - apply bytes_eqb_eq in E. subst. exfalso. apply H. now left.
+  - apply IH. intros Hi. apply H. now right.
+Qed.
+
+Definition merge_entry (dv : bytes) (v : value) : option value :=
+  match v with VStr s => if bytes_eqb s dv then None else Some v | _ => Some v end.
+
+Lemma merge_doc_get dv inc : forall old k, NoDup (map fst inc) ->
+  doc_get k (merge_doc dv old inc) =
+  match doc_get k inc with Some v => merge_entry dv v | None => doc_get k old end.
+Proof.
+  unfold merge_doc. induction inc as [|[i v] r IH]; intros old k Hnd; [reflexivity|].
+  inversion Hnd; subst. cbn [fold_left fst snd doc_get]. rewrite IH by assumption.
+  destruct (bytes_eqb k i) eqn:E.
+  - apply bytes_eqb_eq in E. subst i. rewrite (doc_get_notin k r) by assumption.
+    unfold merge_entry. destruct v; try (rewrite doc_get_set, bytes_eqb_refl; reflexivity).
+    destruct (bytes_eqb s dv).
+    + now rewrite doc_get_remove, bytes_eqb_refl.
+    + now rewrite doc_get_set, bytes_eqb_refl.
+  - destruct (doc_get k r); [reflexivity|].
+    destruct v; try (rewrite doc_get_set, E; reflexivity).
+    destruct (bytes_eqb s dv); [now rewrite doc_get_remove, E|now rewrite doc_get_set, E].
+Qed.
+
+(* ========================= boolean mirrors ================================ *)
+
+Lemma value_eqb_refl v : value_eqb v v = true.
+Proof. now apply value_eqb_eq. Qed.
+Lemma ovalue_eqb_eq a b : ovalue_eqb a b = true <-> a = b.
+Proof.
+  destruct a, b; cbn; try (split; congruence).
+  rewrite value_eqb_eq. split; congruence.
+Qed.
+Lemma doc_get_In k v (d : doc) : doc_get k d = Some v -> In (k, v) d.
+Proof.
+  induction d as [|[i x] r IH]; cbn; [discriminate|].
+  destruct (bytes_eqb k i) eqn:E.
+  - apply bytes_eqb_eq in E. subst. intros H. inversion H. now left.
+  - intros H. right. now apply IH.
+Qed.
+
+Lemma doc_equivb_spec a b : doc_equivb a b = true <-> doc_equiv a b.
+Proof.
+  unfold doc_equivb, doc_equiv. rewrite forallb_forall. split.
+  - intros H k. destruct (doc_get k a) as [v|] eqn:Ea.
+    + apply doc_get_In in Ea as Hi. specialize (H (k, v) (in_or_app _ _ _ (or_introl Hi))).
+      cbn in H. apply ovalue_eqb_eq in H. congruence.
+    + destruct (doc_get k b) as [v|] eqn:Eb; [|reflexivity].
+      apply doc_get_In in Eb as Hi. specialize (H (k, v) (in_or_app _ _ _ (or_intror Hi))).
+      cbn in H. apply ovalue_eqb_eq in H. congruence.
+  - intros H kv _. apply ovalue_eqb_eq. apply H.
+Qed.
+
+Lemma doc_eqb_sound a b : doc_eqb a b = true -> doc_equiv a b.
+Proof.
+  unfold doc_eqb, doc_sub. rewrite !andb_true_iff, !forallb_forall. intros [[_ H1] H2] k.
+  destruct (doc_get k a) as [v|] eqn:Ea.
+  - apply doc_get_In in Ea. specialize (H1 _ Ea). cbn in H1.
+    destruct (doc_get k b); [|discriminate]. apply value_eqb_eq in H1. now subst.
+  - destruct (doc_get k b) as [v|] eqn:Eb; [|reflexivity].
+    apply doc_get_In in Eb. specialize (H2 _ Eb). cbn in H2. rewrite Ea in H2. discriminate.
+Qed.
+
+Lemma odoc_equivb_spec a b :
+  odoc_equivb a b = true <->
+  match a, b with Some d, Some d' => doc_equiv d d' | None, None => True | _, _ => False end.
+Proof.
+  destruct a, b; cbn; try (split; [discriminate|contradiction]); [apply doc_equivb_spec|tauto].
+Qed.
+
+Lemma store_equivb_spec a b : store_equivb a b = true <-> store_equiv a b.
+Proof.
+  unfold store_equivb, store_equiv. rewrite forallb_forall. split.
+  - intros H id. apply odoc_equivb_spec.
+    destruct (st_get id a) as [d|] eqn:Ea.
+    + apply st_get_In in Ea as Hi. specialize (H (id, d) (in_or_app _ _ _ (or_introl Hi))).
+      cbn in H. now rewrite Ea in H.
+    + destruct (st_get id b) as [d|] eqn:Eb; [|reflexivity].
+      apply st_get_In in Eb as Hi. specialize (H (id, d) (in_or_app _ _ _ (or_intror Hi))).
+      cbn in H. now rewrite Ea, Eb in H.
+  - intros H p _. apply odoc_equivb_spec. apply H.
+Qed.
+
+(* ========================= the dump checker is sound ====================== *)
+
+Lemma nodupN_b_spec l : nodupN_b l = true <-> NoDup l.
+Proof.
+  induction l as [|x r IH]; cbn; [split; [constructor|reflexivity]|].
+  rewrite andb_true_iff, negb_true_iff, memN_notIn, IH. split.
+  - intros [H1 H2]. now constructor.
+  - intros H. inversion H; subst. now split.
+Qed.
+Lemma assocN_In {A} n (v : A) l : assocN n l = Some v -> In (n, v) l.
+Proof.
+  induction l as [|[i x] r IH]; cbn; [discriminate|].
+  destruct (N.eqb_spec n i) as [->|].
+  - intros H. inversion H. now left.
+  - intros H. right. now apply IH.
+Qed.
+Lemma assocN_some_iff {A} n (l : list (N * A)) : assocN n l <> None <-> In n (map fst l).
+Proof.
+  induction l as [|[i x] r IH]; cbn; [tauto|].
+  destruct (N.eqb_spec n i) as [->|Hne].
+  - split; [intros _; now left|discriminate].
+  - rewrite IH. split; [tauto|]. intros [H|H]; [congruence|assumption].
+Qed.
+Lemma raw_get_In {A} k (v : A) l : raw_get k l = Some v -> In (k, v) l.
+Proof.
+  induction l as [|[i x] r IH]; cbn; [discriminate|].
+  destruct (bytes_eqb k i) eqn:E.
+  - apply bytes_eqb_eq in E. subst. intros H. inversion H. now left.
+  - intros H. right. now apply IH.
+Qed.
+Lemma NoDup_app_intro {A} (l1 l2 : list A) :
+  NoDup l1 -> NoDup l2 -> (forall x, In x l1 -> ~ In x l2) -> NoDup (l1 ++ l2).
+Proof.
+  induction l1 as [|x r IH]; cbn; intros H1 H2 Hd; [assumption|].
+  inversion H1; subst. constructor.
+  - rewrite in_app_iff. intros [H|H]; [contradiction|]. apply (Hd x); [now left|assumption].
+  - apply IH; [assumption..|]. intros y Hy. apply Hd. now right.
+Qed.
+
+Definition rangeN (lo hi : N) : list N := map N.of_nat (seq (N.to_nat lo) (N.to_nat hi - N.to_nat lo)).
+Lemma rangeN_In lo hi n : In n (rangeN lo hi) <-> lo <= n < hi.
+Proof.
+  unfold rangeN. rewrite in_map_iff. split.
+  - intros (k & <- & Hk). apply in_seq in Hk. lia.
+  - intros H. exists (N.to_nat n). split; [apply N2Nat.id|]. apply in_seq. lia.
+Qed.
+Lemma rangeN_length lo hi : length (rangeN lo hi) = (N.to_nat hi - N.to_nat lo)%nat.
+Proof. unfold rangeN. now rewrite map_length, seq_length. Qed.
+
+Lemma dump_checker_sound d : dump_inv_b d = true -> DumpInv d.
+Proof.
+  unfold dump_inv_b. rewrite !andb_true_iff.
+  intros [[[[[[[[[[[[[[_ Hup] Hun] Hud] Hpn] Hnp] Hld] Hdl] Hln] Hlr] Hfn] Hfr] Hnf2] Hcard] Hcnt].
+  apply negb_true_iff, has_dup_false in Hup.
+  apply nodupN_b_spec in Hun, Hud, Hln, Hfn.
+  rewrite forallb_forall in Hpn, Hnp, Hld, Hdl, Hlr, Hfr.
+  apply N.leb_le in Hnf2. apply N.eqb_eq in Hcard, Hcnt.
+  assert (Hlive : forall n, In n (dump_live d) -> first_node_id <= n < dump_nextfree d /\ n <> 0 /\ n <> start_id).
+  { intros n Hn. specialize (Hlr n Hn). rewrite !andb_true_iff in Hlr. destruct Hlr as [[H1 H2] H3].
+    apply N.ltb_lt in H1, H3. apply N.leb_le in H2. unfold start_id in *. repeat split; lia. }
+  assert (Hfree : forall n, In n (dump_free d) -> first_node_id <= n < dump_nextfree d /\ ~ In n (dump_live d)).
+  { intros n Hn. specialize (Hfr n Hn). rewrite !andb_true_iff in Hfr. destruct Hfr as [[H1 H2] H3].
+    apply negb_true_iff, memN_notIn in H1. apply N.ltb_lt in H3. apply N.leb_le in H2. repeat split; assumption. }
+  constructor.
+  - intros u n. split.
+    + intros H. specialize (Hpn _ H). cbn [fst snd] in Hpn.
+      destruct (assocN n (dump_nodes d)) as [u'|] eqn:E; [|discriminate].
+      apply bytes_eqb_eq in Hpn. subst u'. now apply assocN_In.
+    + intros H. specialize (Hnp _ H). cbn [fst snd] in Hnp.
+      destruct (raw_get u (dump_pts d)) as [n'|] eqn:E; [|discriminate].
+      apply N.eqb_eq in Hnp. subst n'. now apply raw_get_In.
+  - assumption.
+  - assumption.
+  - intros n. split.
+    + intros H. specialize (Hld n H). apply assocN_some_iff.
+      destruct (assocN n (dump_datas d)); [discriminate|discriminate].
+    + intros H. apply in_map_iff in H. destruct H as (nd & <- & Hnd). apply memN_In. now apply Hdl.
+  - assumption.
+  - assumption.
+  - assumption.
+  - (* cardinality argument *)
+    intros n Hn.
+    assert (Hnd : NoDup (dump_free d ++ dump_live d)).
+    { apply NoDup_app_intro; [assumption..|]. intros x Hx. now apply Hfree. }
+    assert (Hincl : incl (dump_free d ++ dump_live d) (rangeN first_node_id (dump_nextfree d))).
+    { intros x Hx. apply rangeN_In. apply in_app_iff in Hx. destruct Hx as [Hx|Hx]; [now apply Hfree|now apply Hlive]. }
+    assert (Hlen : (length (rangeN first_node_id (dump_nextfree d)) <= length (dump_free d ++ dump_live d))%nat).
+    { rewrite rangeN_length, app_length. lia. }
+    pose proof (NoDup_length_incl Hnd Hlen Hincl) as Hcov.
+    apply in_app_iff. apply Hcov. now apply rangeN_In.
+  - rewrite Hcnt. unfold dump_live. now rewrite map_length.
+Qed.
+
+(* ========================= the point count equals |S| ===================== *)
+
+Lemma abs_ids_keys b0 l u : In u (map fst (flat_map (abs_entry b0) l)) -> In (k_node u) (map fst l).
+Proof.
+  induction l as [|[k v] r IH]; cbn [flat_map map]; [contradiction|].
+  rewrite map_app, in_app_iff. intros [H|H]; [|right; now apply IH].
+  left. unfold abs_entry in H. cbn [fst snd] in *.
+  destruct (point_uuid_from_key k) as [u'|] eqn:Ek; [|contradiction].
+  destruct v; try contradiction. cbn in H. destruct H as [<-|[]]. now apply point_uuid_some in Ek.
+Qed.
+Lemma abs_ids_NoDup b0 l : NoDup (map fst l) -> NoDup (map fst (flat_map (abs_entry b0) l)).
+Proof.
+  induction l as [|[k v] r IH]; cbn [flat_map map]; intros H; [constructor|].
+  inversion H; subst. rewrite map_app. apply NoDup_app_intro; [| now apply IH |].
+  - unfold abs_entry. cbn [fst snd]. destruct (point_uuid_from_key k); [destruct v|]; cbn; repeat constructor; auto.
+  - intros u Hu Hr. apply abs_ids_keys in Hr. unfold abs_entry in Hu. cbn [fst snd] in Hu.
+    destruct (point_uuid_from_key k) as [u'|] eqn:Ek; [|contradiction].
+    destruct v; try contradiction. cbn in Hu. destruct Hu as [<-|[]].
+    apply point_uuid_some in Ek. subst k. contradiction.
+Qed.
+
+Definition st_nodup (s : store) : Prop := NoDup (map fst s).
+Lemma st_remove_keys id x s : In x (map fst (st_remove id s)) -> In x (map fst s) /\ x <> id.
+Proof.
+  induction s as [|[i d] r IH]; cbn; [tauto|].
+  destruct (bytes_eqb id i) eqn:E.
+  - intros H. destruct (IH H). split; [now right|assumption].
+  - cbn. intros [<-|H].
+    + split; [now left|]. intros ->. now rewrite bytes_eqb_refl in E.
+    + destruct (IH H). split; [now right|assumption].
+Qed.
+Lemma st_remove_nodup id s : st_nodup s -> st_nodup (st_remove id s).
+Proof.
+  unfold st_nodup. induction s as [|[i d] r IH]; cbn; intros H; [constructor|].
+  inversion H; subst. destruct (bytes_eqb id i); [now apply IH|].
+  cbn. constructor; [|now apply IH]. intros Hi. apply st_remove_keys in Hi. tauto.
+Qed.
+Lemma st_set_nodup id d s : st_nodup s -> st_nodup (st_set id d s).
+Proof.
+  intros H. unfold st_set, st_nodup. cbn. constructor; [|now apply st_remove_nodup].
+  intros Hi. apply st_remove_keys in Hi. tauto.
+Qed.
+Lemma fold_set_nodup ps : forall s, st_nodup s -> st_nodup (fold_left (fun acc p => st_set (fst p) (snd p) acc) ps s).
+Proof. induction ps as [|p r IH]; intros s H; [assumption|]. cbn. apply IH. now apply st_set_nodup. Qed.
+Lemma fold_remove_nodup l : forall s, st_nodup s -> st_nodup (fold_left (fun acc i => st_remove i acc) l s).
+Proof. induction l as [|p r IH]; intros s H; [assumption|]. cbn. apply IH. now apply st_remove_nodup. Qed.
+Lemma update_go_nodup sc maxsize ps : forall s s' ids es,
+  st_nodup s -> update_go sc maxsize ps s = (s', ids, es) -> st_nodup s'.
+Proof.
+  induction ps as [|[u inc] r IH]; intros s s' ids es Hs H; cbn [update_go] in H.
+  - inversion H; now subst.
+  - destruct (st_get u s) as [old|].
+    + destruct (update_go sc maxsize r (st_set u (merge_doc delete_value old inc) s)) as [[s1 ids1] es1] eqn:E1.
+      inversion H; subst. eapply IH; [|exact E1]. now apply st_set_nodup.
+    + eapply IH; eassumption.
+Qed.
+Lemma apply_spec_nodup sc maxsize b s : st_nodup s -> st_nodup (fst (apply_spec sc maxsize b s)).
+Proof.
+  intros Hs. destruct b as [ps|ps|ids]; cbn [apply_spec].
+  - unfold insert_spec. destruct (has_dup (map fst ps)); [assumption|].
+    destruct ((if existsb (fun p => st_mem (fst p) s) ps then [ERR_EXISTS] else []) ++
+              (if forallb (fun p => well_typed sc (snd p)) ps then [] else [ERR_TYPE])); [|assumption].
+    now apply fold_set_nodup.
+  - unfold update_spec. destruct (update_go sc maxsize ps s) as [[s1 ids1] es1] eqn:E.
+    destruct es1; [|assumption]. cbn. eapply update_go_nodup; eassumption.
+  - unfold delete_spec. cbn. now apply fold_remove_nodup.
+Qed.
+Lemma runS_nodup sc maxsize h : forall s, st_nodup s -> st_nodup (fst (runS sc maxsize h s)).
+Proof.
+  induction h as [|b r IH]; intros s Hs; cbn [runS]; [assumption|].
+  pose proof (apply_spec_nodup sc maxsize b s Hs) as H1.
+  destruct (apply_spec sc maxsize b s) as [s1 o1]. cbn [fst] in H1.
+  specialize (IH s1 H1). destruct (runS sc maxsize r s1) as [s2 os]. exact IH.
+Qed.
+
+Lemma st_get_keys u (s : store) : st_get u s <> None <-> In u (map fst s).
+Proof.
+  split.
+  - destruct (st_get u s) as [d|] eqn:E; [|congruence]. intros _. apply st_get_In in E.
+    apply in_map_iff. now exists (u, d).
+  - intros H Hn. induction s as [|[i d] r IH]; cbn in *; [contradiction|].
+    destruct (bytes_eqb u i) eqn:E; [discriminate|]. destruct H as [<-|H]; [|now apply IH].
+    now rewrite bytes_eqb_refl in E.
+Qed.
+Lemma store_same_length a b : st_nodup a -> st_nodup b -> store_same a b -> length a = length b.
+Proof.
+  intros Ha Hb H. rewrite <- (map_length fst a), <- (map_length fst b).
+  apply Nat.le_antisymm; apply NoDup_incl_length; try assumption.
+  - intros u Hu. apply st_get_keys. rewrite <- (H u). now apply st_get_keys.
+  - intros u Hu. apply st_get_keys. rewrite (H u). now apply st_get_keys.
+Qed.
+
+Lemma refines_count sc maxsize h css m outs :
+  runM sc maxsize h css m_init = Some (m, outs) ->
+  count m = N.of_nat (length (fst (runS sc maxsize h []))).
+Proof.
+  intros H. destruct (run_sim _ _ _ _ _ _ _ _ Sim_init H) as [_ [I L]].
+  rewrite (inv_count _ I). f_equal. apply store_same_length.
+  - unfold st_nodup, abs, abs_bucket. apply abs_ids_NoDup. apply (wf_nodup _ (inv_wf _ I)).
+  - apply runS_nodup. constructor.
+  - intros id. unfold abs. rewrite abs_get by apply (inv_wf _ I). apply L.
+Qed.
+
+(* ========================= runM is not vacuous ============================ *)
+
+Lemma insert_go_nextfree ps : forall cs b fl nf b' fl' nf',
+  m_insert_go ps cs b fl nf = Some (b', fl', nf') -> nf' <= nf + N.of_nat (length ps).
+Proof.
+  induction ps as [|[u d] r IH]; intros cs b fl nf b' fl' nf' H.
+  - destruct cs; [|discriminate]. inversion H; subst. cbn. lia.
+  - destruct cs as [|c cs']; [discriminate|]. cbn [m_insert_go] in H.
+    destruct (next_id c fl nf) as [[fl1 nf1]|] eqn:En; [|discriminate].
+    apply IH in H. unfold next_id in En. destruct (memN c fl).
+    + inversion En; subst. cbn [length]. lia.
+    + destruct fl; [|discriminate]. destruct ((c =? nf) && (nf + 1 <? two64)); [|discriminate].
+      inversion En; subst. cbn [length]. lia.
+Qed.
+Lemma apply_nextfree sc maxsize b cs m m' o :
+  m_apply sc maxsize b cs m = Some (m', o) -> nextfree m' <= nextfree m + batch_points b.
+Proof.
+  destruct b as [ps|ps|ids]; cbn [m_apply batch_points].
+  - unfold m_insert. destruct (has_dup (map fst ps)); [intros H; inversion H; lia|].
+    destruct ((if existsb (fun p => m_exists (fst p) (pts m)) ps then [ERR_EXISTS] else []) ++
+              (if forallb (fun p => well_typed sc (snd p)) ps then [] else [ERR_TYPE])).
+    + destruct (m_insert_go ps cs (pts m) (load_free (free m)) (nextfree m)) as [[[b' fl'] nf']|] eqn:E; [|discriminate].
+      intros H. inversion H; subst. cbn. now apply insert_go_nextfree in E.
+    + intros H; inversion H; lia.
+  - unfold m_update. destruct (m_update_go sc maxsize ps (pts m)) as [[b' ids] es].
+    destruct es; intros H; inversion H; cbn; lia.
+  - unfold m_delete. destruct (m_delete_go (dedup ids) (pts m) (load_free (free m))) as [[b' fl'] del].
+    intros H; inversion H; cbn; lia.
+Qed.
+
+Lemma run_exists sc maxsize h : forall m,
+  nextfree m + hist_points h < two64 -> exists css m' outs, runM sc maxsize h css m = Some (m', outs).
+Proof.
+  induction h as [|b r IH]; intros m Hb.
+  - exists [], m, []. reflexivity.
+  - cbn [hist_points] in Hb.
+    destruct (choice_exists sc maxsize b m) as [cs Hcs].
+    { fold (batch_points b). lia. }
+    destruct (m_apply sc maxsize b cs m) as [[m1 o1]|] eqn:E1; [|contradiction].
+    pose proof (apply_nextfree _ _ _ _ _ _ _ E1) as Hn.
+    destruct (IH m1) as (css & m2 & os & E2); [lia|].
+    exists (cs :: css), m2, (o1 :: os). cbn [runM hd tl]. now rewrite E1, E2.
+Qed.
+
+(* ========================= statements in the form Props_C01.v uses ======== *)
+
+Lemma reads sc maxsize m : reachable sc maxsize m -> forall u, lookup (pts m) u = st_get u (abs m).
+Proof. intros H u. symmetry. apply abs_get. apply (inv_wf _ (reachable_inv sc maxsize m H)). Qed.
+
+Lemma run_exists_init sc maxsize h :
+  first_node_id + hist_points h < two64 -> exists css m outs, runM sc maxsize h css m_init = Some (m, outs).
+Proof. intros H. exact (run_exists sc maxsize h m_init H). Qed.
+
+Lemma spec_merge (inc old : doc) (k : bytes) : NoDup (map fst inc) ->
+  doc_get k (merge_doc delete_value old inc) =
+  match doc_get k inc with Some v => merge_entry delete_value v | None => doc_get k old end.
+Proof. intros H. exact (merge_doc_get delete_value inc old k H). Qed.
